@@ -68,7 +68,9 @@ def make_mapped_model(cfg, seed, rich=False):
     # (gradient contractions, Laplacian-type kernels), so they go through the signed map
     nsl = st.sl_settings.nfeat
     maps = [UMap(i, 0.3 + 0.1 * (i % 5)) if i < nsl else SignedUMap(i, 0.5 + 0.2 * (i % 4)) for i in range(1, nf)]
-    if cfg.get("fl") == "rich" and nf > nsl:
+    # (not in front of a spline evaluator: X/Y maps are unbounded and a spline set outside its grid returns a derivative that is
+    # not the derivative of its extrapolated value -- observation O8; mapped models span the bounds of BOUNDED maps)
+    if cfg.get("fl") == "rich" and nf > nsl and cfg["eval"] != "spline":
         # composite transforms that read SEVERAL raw features, some of them through the same index twice (x_k scaled by
         # powers of the non-negative semilocal variables): the chain rule must accumulate over every argument slot
         from ciderpress.dft.transform_data import XMap, YMap
